@@ -39,13 +39,21 @@ type zzCtrl struct {
 	kcontroller.Controller
 	started  chan context.Context
 	failNext bool
-	watches  int
+	// failIn: the n-th Watch call from now fails (once); 0 = none
+	failIn  int
+	watches int
 }
 
 func (c *zzCtrl) Watch(src source.TypedSource[reconcile.Request]) error {
 	if c.failNext {
 		c.failNext = false
 		return errors.New("injected watch failure")
+	}
+	if c.failIn > 0 {
+		c.failIn--
+		if c.failIn == 0 {
+			return errors.New("injected watch failure")
+		}
 	}
 	c.watches++
 	return src.Start(context.Background(), nil)
@@ -449,4 +457,62 @@ func HarnessC13StopRetry() {
 	}
 	zz.Cover("restarted-clean")
 	liveOK("at-most-one-live-watch-per-type-and-kind-after-restart")
+}
+
+// HarnessC13PartialStart: one StartWatches call for several new watches of
+// which the n-th fails to start (its kind's CRD is not there yet, say); the
+// call is then retried. The watches the failed call did start are live: the
+// retry does not start them a second time, and a Stop removes every event
+// handler.
+//
+//gosym:harness seqgo locks
+//gosym:cover start-failed-part-way stopped
+func HarnessC13PartialStart() {
+	infs := &zzInformers{}
+	elected := make(chan struct{})
+	close(elected)
+	e := New(&zzMgr{elected: elected}, infs, nil, nil)
+	ctrl := &zzCtrl{started: make(chan context.Context, 8)}
+	newCtrl := WithNewControllerFn(func(string, manager.Manager, kcontroller.Options) (kcontroller.Controller, error) { return ctrl, nil })
+	const name = "composite/xrs.example.org"
+	all := zzWatches()
+	zz.Assert("start-no-error", e.Start(name, newCtrl) == nil)
+	<-ctrl.started
+
+	var ws []Watch
+	for k, w := range all {
+		if zz.Bool("watch" + string(rune('0'+k))) {
+			ws = append(ws, w)
+		}
+	}
+	zz.Assume(len(ws) >= 2)
+	ctrl.failIn = 1 + zz.Choose("failing.watch", len(all))
+	zz.Assume(ctrl.failIn <= len(ws))
+	err := e.StartWatches(name, ws...)
+	zz.Assert("startwatches-reports-the-failure", err != nil)
+	zz.Cover("start-failed-part-way")
+	ctrl.failIn = 0
+	liveOK := func(label string) {
+		got, _ := e.GetWatches(name)
+		for _, kind := range zzKinds {
+			gvk := zzObj(kind).GroupVersionKind()
+			types := 0
+			for _, g := range got {
+				if g.GVK == gvk {
+					types++
+				}
+			}
+			zz.Assert(label, infs.live(gvk) <= types)
+		}
+	}
+	liveOK("no-live-watch-the-engine-does-not-know-after-a-failed-start")
+	for k := 0; k < 2; k++ {
+		zz.Assert("retry-no-error", e.StartWatches(name, ws...) == nil)
+		liveOK("at-most-one-live-watch-per-type-and-kind-after-the-retry")
+	}
+	zz.Assert("stop-no-error", e.Stop(context.Background(), name) == nil)
+	zz.Cover("stopped")
+	for _, kind := range zzKinds {
+		zz.Assert("stop-removes-all-event-handlers", infs.live(zzObj(kind).GroupVersionKind()) == 0)
+	}
 }
